@@ -64,9 +64,9 @@ PROPS = {
     ),
     'C14': dict(
         title='id allocator / thread ids / deposit box',
-        quick=[mc('mc_ids', 'all', 'sc', P=2, E=1, budget=150)],
-        thorough=[mc('mc_ids', 'all', 'sc', P=3, E=1, budget=900), mc('mc_ids', 'all', 'tso', P=2, D=1, E=0, budget=900)],
-        oracle='harness ownership map (no value held twice), quiescent reuse and for_each = live set, thread ids unique while live and recycled after death, exactly one taker per deposit id, stale ids never match after slot reuse',
+        quick=[mc('mc_ids', 'all', 'sc', P=2, E=1, budget=150), sq('sq_ids', ['--depth', '12'], budget=100)],
+        thorough=[mc('mc_ids', 'all', 'sc', P=3, E=1, budget=900), mc('mc_ids', 'all', 'tso', P=2, D=1, E=0, budget=900), sq('sq_ids', ['--depth', '18'], budget=600)],
+        oracle='harness ownership map (no value held twice), quiescent reuse and for_each = live set, thread ids unique while live and recycled after death, exactly one taker per deposit id, stale ids never match after slot reuse; sequential half (sq_ids): every allocate/free history (5 held values) and every emplace/take/take_released/finish_released history over 5 issued ids vs a reference model: reuse instead of minting, end(), for_each = live set, take succeeds iff the id is live and returns its own item',
     ),
     'C16': dict(
         title='execution queue: items consumed once, one consumer at a time, none stranded',
@@ -108,9 +108,9 @@ PROPS = {
     ),
     'C17': dict(
         title='page allocators / object pool: resources conserved, never shared, never lost',
-        quick=[mc('mc_pages', 'all', 'sc', P=2, E=0, budget=200)],
-        thorough=[mc('mc_pages', 'all', 'sc', P=3, E=1, budget=1500), mc('mc_pages', '0-4,7,8', 'tso', P=2, D=1, E=0, budget=900)],
-        oracle='ownership map over a recording upstream whose pages are never reused: nothing handed out that another caller holds or that was already returned upstream, nothing returned twice or while held; at quiescence obtained - returned = held + cached; destruction returns the cache; strict pool: outstanding <= injected and blocked pops resume (deadlock detector); auto pool: recycler once per return, overflow destroyed, nothing leaked',
+        quick=[mc('mc_pages', 'all', 'sc', P=2, E=0, budget=200), sq('sq_pages', ['--depth', '12'], budget=100)],
+        thorough=[mc('mc_pages', 'all', 'sc', P=3, E=1, budget=1500), mc('mc_pages', '0-4,7,8', 'tso', P=2, D=1, E=0, budget=900), sq('sq_pages', ['--depth', '16'], budget=600)],
+        oracle='ownership map over a recording upstream whose pages are never reused: nothing handed out that another caller holds or that was already returned upstream, nothing returned twice or while held; at quiescence obtained - returned = held + cached; destruction returns the cache; strict pool: outstanding <= injected and blocked pops resume (deadlock detector); auto pool: recycler once per return, overflow destroyed, nothing leaked; sequential half (sq_pages): every allocate/deallocate history (batches of 1-3, up to 6 held pages) on cached (capacity 1/2/4), batch (2/3/default) and counting-over-cached allocators and every pop/try_pop/drop/push history on strict and auto-creating pools: conservation after every step, nothing handed out twice or after return, destruction returns exactly the cache',
     ),
     'C19': dict(
         title='counters / enumerable thread locals: aggregates exact across thread and instance churn',
